@@ -366,4 +366,53 @@ PROPS = {
                  "`evaluations` counts damage points."),
         "assumptions": [],
     },
+    "C16": {
+        "src": "c16", "engine": "rc", "level": "fault_enumeration", "leaks": True,
+        "extra_link": ["-Wl,--wrap=malloc", "-Wl,--wrap=calloc", "-Wl,--wrap=realloc", "-Wl,--wrap=strdup", "-Wl,--wrap=strndup"],
+        "replay_timeout": 900,
+        "technique": "fault enumeration: link-time allocator interposition, every k-th allocation of every scenario fails (alone and with all later ones) in a forked child under ASan + LeakSanitizer; scenario contents partly generated by rapidcheck",
+        "level_text": ("Ten fixed scenarios cover the API groups (initialise/finalise; compiling text, hex, regexp, base64, xor, "
+                       "chained strings, loops, includes, namespaces, externals, atom table through add_string/bytes/file/fd; "
+                       "get_rules; save/load through a stream and a file; rules-level and scanner-level definitions; scans "
+                       "through mem/file/fd/block iterators with pe, dotnet, elf, macho, dex, hash, math, string, time and "
+                       "console on matching samples) and rapidcheck adds generated compile+scan scenarios. For a scenario "
+                       "with N allocations, for EVERY k <= N the k-th malloc/calloc/realloc/strdup/strndup made by the code "
+                       "under test (flex/bison included) returns NULL, and again with all allocations from k on failing; "
+                       "each fault point runs in a forked child. Oracle: no crash / assertion / sanitizer report; every call "
+                       "returns ERROR_INSUFFICIENT_MEMORY or a reported compile error, or completes with the fault-free "
+                       "result; everything can be destroyed; LeakSanitizer finds nothing; a canary compile+scan then "
+                       "succeeds in the same process."),
+        "level_note": ("Exhaustive over k per scenario; the scenario set is finite; allocations inside libc / libcrypto "
+                       "(shared objects) are not interposed; the shim's own bookkeeping allocations are suspended from "
+                       "injection. Findings are keyed by root cause = kind + the first library frames requesting the "
+                       "allocation."),
+        "quick": (2, 30), "thorough": (40, 600),
+        "floor": 30,
+        "rule": ("unit = one fault point (scenario, k, mode). `evaluations` counts fault points run; a distinct non-trivial "
+                 "unit is a distinct (scenario, requesting call site) pair, i.e. a distinct place in the library whose "
+                 "allocation was made to fail."),
+        "assumptions": [],
+    },
+    "C15": {
+        "src": "c15", "engine": "rc", "level": "exploration",
+        "replay_timeout": 300,
+        "technique": "boundary-directed property testing (rapidcheck): one generator per engine limit producing L-1, L, L+1 and far-beyond inputs and configurations, with the documented outcome as oracle and a post-event canary",
+        "level_text": ("Twelve generators, one per limit: identifier length (128), integer literal range incl. KB/MB/hex/octal, "
+                       "loop nesting (4), strings per rule (YR_CONFIG_MAX_STRINGS_PER_RULE 1..64), include depth (16), lexer "
+                       "buffer (8192), regexp repeat interval (32767) / split count (128) / size, scan-time fiber limit, "
+                       "evaluation stack (YR_CONFIG_STACK_SIZE 4..64: the overflow depth must be exact, monotone and grow with "
+                       "the stack), matches per string (1,000,000 with CONTINUE / ABORT / ERROR replies; the other rule's "
+                       "results must be unaffected), scan timeout (1-2 s on four rule shapes that cannot finish), match-data "
+                       "size. The oracle is the documented error code (error.h / limits.h / the manual) exactly at the "
+                       "boundary, ERROR_SCAN_TIMEOUT within a bounded delay, and after every event a canary compile+scan in "
+                       "the same process."),
+        "level_note": ("Timeliness is measured on a shared machine: later than deadline+3 s is recorded as inconclusive, only "
+                       "10x the timeout + 10 s is a violation; the zero-width-assertion hang is a listed finding run under a "
+                       "watchdog in a forked child."),
+        "quick": (60, 50), "thorough": (3000, 600),
+        "floor": 30,
+        "rule": ("case = one (limit, parameters) choice. Non-trivial: the case lies within +-1..2 of a limit (or is a "
+                 "timeout / match-limit event); distinct by hash of the case description."),
+        "assumptions": [],
+    },
 }
